@@ -23,7 +23,14 @@ ASSUMPTIONS = ["concentration = solute amount / size of the whole mixture in the
                "stated concentrations are rounded to internal_precision decimals of the base-unit ratio by the parser "
                "(documented): the target is that rounded value; ratios below 1e-7 are not generated",
                "enzyme solutes are not generated (declared unsupported); non-enzyme solvents only"]
-REQUIRED_CLASSES = {'quick': ['dilute:returned', 'fill_to:returned', 'dilute:refused', 'fill_to:refused'],
+def shard_config(shard, tier):
+    """three of eight shards run under other documented storage units (prefixes that differ from each other too)"""
+    return {5: {'moles_storage_unit': 'mmol', 'volume_storage_unit': 'mL'}, 6: {'volume_storage_unit': 'mL'},
+            7: {'moles_storage_unit': 'nmol'}}.get(shard % 8)
+
+
+REQUIRED_CLASSES = {'quick': ['dilute:returned', 'fill_to:returned', 'dilute:refused', 'fill_to:refused',
+                              'fill_to:plate-returned'],
                     'thorough': ['dilute:returned', 'fill_to:returned', 'dilute:refused', 'fill_to:refused',
                                  'class:multi', 'class:enzyme-bystander']}
 
@@ -53,7 +60,9 @@ class Target(Monitor):
         if op['op'] == 'fill_to':
             e = world.pool[op['obj']['i']]
             if e.kind != 'c':
-                return None          # plates are judged well by well in C07
+                # a plate or slice: every addressed well must reach the target by solvent alone (that the other wells
+                # stay as they are is C07's).  Addressed wells with their contents before the call:
+                return [(rc, v) for rc, v in bench.well_views(world, op['obj'])[0]]
         return True
 
     def after(self, world, op, pre, out):
@@ -61,6 +70,8 @@ class Target(Monitor):
             return
         if op['op'] == 'dilute':
             self.dilute(world, op, out)
+        elif isinstance(pre, list):
+            self.fill_plate(world, op, pre, out)
         else:
             self.fill(world, op, out)
 
@@ -179,6 +190,69 @@ class Target(Monitor):
             col.report(f"dilute/{units}/recipe-step-differs-from-direct-call", {'conc': op['conc']}, case)
 
     # ------------------------------------------------------------------------------------------------ fill_to
+    @staticmethod
+    def fill_verdict(world, before, solvent, x, fam):
+        """(verdict, eps, current size) of filling the vessel `before` to x of family fam with solvent"""
+        ref, cfg = world.ref, world.cfg
+        base = world.base(before)
+        cur = ref.size(base, fam)
+        names = list(base) + [solvent.name]
+        g = sum(ref.grain_base(n) * abs(ref.subs[n].factor(fam)) for n in names)
+        eps = 4 * g / max(x, cur) + 1e-9
+        m = (x - cur) / max(x, cur)
+        verdict = 'accept' if m > eps else 'refuse' if m < -eps else 'band'
+        if verdict == 'accept' and not math.isinf(before['cap']):
+            s = (x - cur) / solvent.factor(fam)
+            newvol = ref.volume_storage(base) + s * solvent.factor('L') / cfg.vol_mult
+            mc = (before['cap'] - newvol) / before['cap']
+            if mc < -1e-6:
+                verdict = 'refuse-capacity'
+            elif mc < 1e-6:
+                verdict = 'band'
+        return verdict, eps, cur
+
+    def fill_plate(self, world, op, wells, out):
+        """Plate.fill_to / PlateSlicer.fill_to: the statement of the property for every addressed well"""
+        col, ref = self.col, world.ref
+        col.case()
+        case = world.case
+        solvent = world.subs[op['solvent']]
+        try:
+            exact, fam = rparse.quantity(op['q'])
+        except rparse.Unreadable:
+            return
+        x = float(exact)
+        if fam not in ('L', 'g', 'mol') or solvent.enzyme or x <= 0 or not wells:
+            col.exclude('fill_to outside domain')
+            return
+        verdicts = [self.fill_verdict(world, v, solvent, x, fam) for _, v in wells]
+        kinds = {v for v, _, _ in verdicts}
+        overall = 'refuse' if kinds & {'refuse', 'refuse-capacity'} else 'accept' if kinds == {'accept'} else 'band'
+        distinct_mix = len({tuple(sorted(n for n, a in v['contents'] if a > 0)) for _, v in wells}) > 1
+        col.label(f"plate-fill:{overall}")
+        if distinct_mix:
+            col.label('plate-fill:wells-hold-different-mixtures')
+        if out.ok:
+            col.label('fill_to:plate-returned')
+            after = out.new_entries[0].view
+            for ((r, c), before), (verdict, eps, cur) in zip(wells, verdicts):
+                a = after['wells'][r][c]
+                self.only_solvent_changed(world, before, a, solvent.name, 'fill_to/plate', case)
+                if verdict in ('refuse', 'refuse-capacity'):
+                    col.report(f"fill_to/plate/{fam}/{verdict}/returned", {'current': cur, 'target': x, 'well': [r, c]}, case)
+                elif verdict == 'accept':
+                    got = ref.size(world.base(a), fam)
+                    if abs(got - x) > eps * x:
+                        col.report(f"fill_to/plate/{fam}/misses-target", {'target': x, 'got': got, 'current': cur, 'well': [r, c]}, case)
+        else:
+            col.label('fill_to:plate-refused')
+            if not isinstance(out.exc, ValueError):
+                col.report(f"fill_to/plate/raised:{type(out.exc).__name__}", {'exc': repr(out.exc)[:160]}, case)
+            elif overall == 'accept':
+                col.report(f"fill_to/plate/{fam}/feasible-refused", {'target': x, 'exc': str(out.exc)[:100]}, case)
+        if fam != 'L' or distinct_mix:
+            col.nontrivial_key(f"fill_to|plate|{fam}|{overall}|{distinct_mix}|{'ok' if out.ok else 'refused'}")
+
     def fill(self, world, op, out):
         col, ref, cfg = self.col, world.ref, world.cfg
         col.case()
@@ -233,9 +307,9 @@ class Target(Monitor):
             col.sample(lambda: {'op': op, 'contents': before['contents'], 'verdict': verdict, 'current': cur, 'target': x})
 
 
-PROFILE = {'weights': {'transfer': 3, 'container': 3, 'plate': 0, 'remove': 1, 'fill_to': 4, 'slice': 0,
+PROFILE = {'weights': {'transfer': 4, 'container': 3, 'plate': 1, 'remove': 1, 'fill_to': 5, 'slice': 1,
                        'create_solution': 3, 'dilute': 6, 'create_solution_from': 1},
-           'q_modes': ['frac'] * 9 + ['whole'], 'self_transfer': False, 'initial_plates': 0,
+           'q_modes': ['frac'] * 9 + ['whole'], 'self_transfer': False, 'initial_plates': 1,
            'fill_modes': ['fit'] * 6 + ['below', 'below', 'over', 'over'],
            'dilute_modes': ['lower'] * 6 + ['higher', 'higher', 'equal', 'slightly']}
 
